@@ -85,6 +85,9 @@ type result struct {
 	Trace      []map[string]any `json:"trace"`
 	Checks     int              `json:"checks"`
 	Stats      map[string]int   `json:"stats"`
+	// Blocked: a goroutine was found blocked inside the code where the model lets it run (the code serialises more
+	// than the model); the rest of the script ran unscheduled, the properties were still evaluated
+	Blocked string `json:"blocked,omitempty"`
 }
 
 // templates: mirror of Tpl in MCProducer.tla
@@ -122,6 +125,7 @@ type callRec struct {
 	done       bool
 	err        error
 	tx         dag.Transaction
+	faulted    bool // the driver injected a failure into this call
 }
 
 type track struct {
@@ -267,7 +271,7 @@ func (r *run) observe(actor, ev string, f map[string]any) {
 			t.phase = "add"
 		}
 	case "write.fn":
-		var stored []string
+		stored := []string{}
 		if refs, ok := f["_refs"].([]hash.SHA256Hash); ok {
 			for _, h := range refs {
 				n, known := r.names[h]
@@ -316,6 +320,26 @@ func (r *run) signed(actor, res string) {
 	r.emit(map[string]any{"ev": "sign", "p": actor, "res": res})
 	if t := r.tr[actor]; t != nil {
 		t.phase = "verify"
+	}
+}
+
+// onHeadRead is called from inside the read transaction in which the code reads the head reference: the value it got and
+// the set of transactions stored at that very moment are recorded for the call (first head read of the call only)
+func (r *run) onHeadRead(actor string, value []byte) {
+	r.mu.Lock()
+	c := r.cur[actor]
+	r.mu.Unlock()
+	if c == nil || c.headRead || c.done {
+		return
+	}
+	head := hash.EmptyHash()
+	if len(value) == hash.SHA256HashSize {
+		head = hash.FromSlice(value)
+	}
+	if st, err := readStored(r.n.inner); err == nil {
+		c.seen = st.clock
+		c.headAtRead = head
+		c.headRead = true
 	}
 }
 
@@ -555,6 +579,9 @@ func (r *run) check(when string) {
 	byPH := map[hash.SHA256Hash]int{}
 	for _, p := range natsPubs {
 		byPH[p.TX.PayloadHash()]++
+		if !hash.SHA256Sum(p.Payload).Equals(p.TX.PayloadHash()) {
+			r.violL("created-not-dispatched", when+": an event was published with a payload that is not the payload of its transaction")
+		}
 		if _, ok := s.clock[p.TX.Ref()]; !ok {
 			r.violL("event-without-transaction", when+": an event was published for a transaction that is not stored")
 		}
@@ -562,6 +589,9 @@ func (r *run) check(when string) {
 	appPH := map[hash.SHA256Hash]int{}
 	for _, e := range app {
 		appPH[e.Transaction.PayloadHash()]++
+		if !hash.SHA256Sum(e.Payload).Equals(e.Transaction.PayloadHash()) {
+			r.violL("created-not-dispatched", when+": a subscriber was notified with a payload that is not the payload of its transaction")
+		}
 		if _, ok := s.clock[e.Hash]; !ok {
 			r.violL("event-without-transaction", when+": a subscriber was notified of a transaction that is not stored")
 		}
@@ -574,6 +604,7 @@ func (r *run) check(when string) {
 			continue
 		}
 		if cerr != nil {
+			r.explain(c, cerr, s, when)
 			if declared[c.ph] || have[c.ph] || byPH[c.ph] > 0 || appPH[c.ph] > 0 {
 				r.violL("failed-call-left-trace", fmt.Sprintf("%s: call %s (%s) returned an error (%v) but left a trace (transaction=%v payload=%v events=%d/%d)",
 					when, c.id, c.tpl, cerr, declared[c.ph], have[c.ph], byPH[c.ph], appPH[c.ph]))
@@ -605,6 +636,37 @@ func (r *run) check(when string) {
 
 const eventsTransactionsSubject = "TRANSACTIONS.tx"
 
+// explain: a call may only fail for a reason that lies in its template, in an injected failure, or in the one race the
+// code admits (two goroutines create the root of an empty DAG); a sound template must yield a transaction
+func (r *run) explain(c *callRec, cerr error, s *stored, when string) {
+	if c.faulted || r.res.Blocked != "" {
+		return
+	}
+	switch c.tpl {
+	case "ghost", "nokey", "badjwk", "privbad", "kidfar":
+		return
+	}
+	if c.spec.Priv && !r.in.NodeDID {
+		return
+	}
+	if c.spec.Key == "kid" && !r.in.Base {
+		return // nothing resolves the kid on a DAG without the signer's DID document
+	}
+	if c.headRead && c.headAtRead.Equals(hash.EmptyHash()) && len(s.refs) > 0 {
+		return // root race: somebody else's root was stored first
+	}
+	r.violL("sound-template-fails", fmt.Sprintf("%s: call %s (%s) failed although its template is sound, no failure was injected and no other goroutine created a root: %v", when, c.id, c.tpl, cerr))
+}
+
+func (r *run) hasGhost(c *callRec) bool {
+	for _, h := range c.addl {
+		if h.Equals(r.ghost) {
+			return true
+		}
+	}
+	return false
+}
+
 // returned runs on the goroutine of the caller right after CreateTransaction returned
 func (r *run) returned(c *callRec, tx dag.Transaction, err error) {
 	ev := map[string]any{"ev": "create.return", "p": c.p, "id": c.id}
@@ -622,7 +684,7 @@ func (r *run) returned(c *callRec, tx dag.Transaction, err error) {
 	if _, ok := r.names[tx.Ref()]; !ok {
 		r.register(c.id, tx.Ref())
 	}
-	var prevs []string
+	prevs := []string{}
 	for _, p := range tx.Previous() {
 		prevs = append(prevs, r.nameOf(p))
 	}
@@ -672,7 +734,7 @@ func (r *run) returned(c *callRec, tx dag.Transaction, err error) {
 	if err := r.verifySig(tx); err != nil {
 		bad("signature", "does not verify with the key it names: %v", err)
 	}
-	if c.spec.Key == "badjwk" || c.spec.Key == "nokey" || !c.spec.PalOK {
+	if c.spec.Key == "badjwk" || c.spec.Key == "nokey" || !c.spec.PalOK || (c.spec.Priv && !r.in.NodeDID) || r.hasGhost(c) {
 		bad("defective-template-accepted", "a transaction was created from a template that cannot yield a valid one")
 	}
 	// private <=> PAL; the PAL is readable by the participants only
@@ -746,6 +808,9 @@ func (r *run) returned(c *callRec, tx dag.Transaction, err error) {
 		for _, x := range l {
 			if x.Ref().Equals(tx.Ref()) {
 				found = true
+			}
+			if x.Clock() != tx.Clock() {
+				bad("created-not-readable", "ListTransactionsInRange(%d,%d) lists a transaction with clock %d", tx.Clock(), tx.Clock()+1, x.Clock())
 			}
 		}
 		if !found {
@@ -1092,7 +1157,7 @@ func (r *run) finishReprocess() {
 	if err != nil {
 		return
 	}
-	var names []string
+	names := []string{}
 	seen := map[hash.SHA256Hash]bool{}
 	var last uint32
 	for _, p := range pubs {
@@ -1204,13 +1269,31 @@ func (w *world) runScript(in input, sc script) (res *result) {
 	t0 = time.Now()
 
 	sched := r.sched
+	errBlocked := errors.New("blocked inside the code")
+	// a goroutine that was released reaches its next gate (or returns) promptly unless it is blocked inside the code.
+	// A short wait decides; the first two times per driver process the verdict "blocked" is confirmed with a generous
+	// wait, which keeps the replay independent of the load of the machine and bounds the cost when the code really
+	// serialises more than the model (every script would block)
+	const short, arrive = 250 * time.Millisecond, 1500 * time.Millisecond
+	await := func(p string) (string, bool) {
+		at, ok := sched.Await(p, short)
+		if !ok && w.confirmedBlocked < 2 {
+			if at, ok = sched.Await(p, arrive-short); !ok {
+				w.confirmedBlocked++
+			}
+		}
+		return at, ok
+	}
 	stepActor := func(p, gateName, directive string) (string, error) {
-		at, ok := sched.Await(p, sched.GiveUp)
+		at, ok := await(p)
 		if !ok {
-			return "", fmt.Errorf("actor %s is blocked inside the code (expected at gate %s)", p, gateName)
+			res.Blocked = fmt.Sprintf("step %d: actor %s is blocked inside the code, the model expects it at gate %s", r.stepNo, p, gateName)
+			return "", errBlocked
 		}
 		if at != gateName {
-			return at, fmt.Errorf("actor %s is at %q, the model expects it at %q", p, at, gateName)
+			// the code takes other steps than the model: the rest of the script runs unscheduled (properties still evaluated)
+			res.Blocked = fmt.Sprintf("step %d: actor %s is at %q, the model expects it at %q", r.stepNo, p, at, gateName)
+			return at, errBlocked
 		}
 		return sched.Step(p, gateName, directive)
 	}
@@ -1222,8 +1305,11 @@ func (w *world) runScript(in input, sc script) (res *result) {
 		}
 		return "", 0
 	}
-	isDone := func(p string) bool { at, _ := sched.Await(p, sched.BlockedAfter); return at == "done" }
+	isDone := func(p string) bool { at, _ := await(p); return at == "done" }
 	expectOutcome := func(s step, p string, modelErr bool) {
+		if res.Blocked != "" {
+			return
+		}
 		if modelErr != isDone(p) {
 			r.drift("%s(%s): model says error=%v, the call has returned=%v", s.str("a"), p, modelErr, !modelErr)
 		}
@@ -1258,27 +1344,33 @@ func (w *world) runScript(in input, sc script) (res *result) {
 			_, err = sched.Step(p, "start", "go")
 		case "CheckPrevs":
 			for err == nil {
+				at, ok := await(p)
+				if !ok {
+					res.Blocked = fmt.Sprintf("step %d: actor %s is blocked inside the code before its first read", r.stepNo, p)
+					err = errBlocked
+					break
+				}
 				ph, left := phaseOf(p)
-				at, _ := sched.Await(p, sched.BlockedAfter)
 				if ph != "chkprev" || left == 0 || at != "read.begin" {
 					break
 				}
 				_, err = sched.Step(p, "read.begin", "go")
 			}
-			expectOutcome(s, p, s.str("res") != "ok")
-		case "ReadHead":
-			c := r.cur[p]
-			if st, e := readStored(r.n.inner); e == nil && c != nil {
-				c.seen = st.clock
-				c.headAtRead, _ = r.n.st.Head(context.Background())
-				c.headRead = true
+			if err == nil {
+				expectOutcome(s, p, s.str("res") != "ok")
 			}
+		case "ReadHead":
 			_, err = stepActor(p, "read.begin", "go")
 			expectOutcome(s, p, s.str("res") != "ok")
 		case "CalcClock":
 			for err == nil {
+				at, ok := await(p)
+				if !ok {
+					res.Blocked = fmt.Sprintf("step %d: actor %s is blocked inside the code", r.stepNo, p)
+					err = errBlocked
+					break
+				}
 				ph, _ := phaseOf(p)
-				at, _ := sched.Await(p, sched.BlockedAfter)
 				if ph != "clock" || at != "read.begin" {
 					break
 				}
@@ -1290,6 +1382,9 @@ func (w *world) runScript(in input, sc script) (res *result) {
 		case "Fail":
 			if isDone(p) {
 				break // the call has already failed for a reason of its own
+			}
+			if c := r.cur[p]; c != nil {
+				c.faulted = true
 			}
 			if s.str("at") == "sign" {
 				_, err = stepActor(p, "sign", "fail")
@@ -1312,6 +1407,9 @@ func (w *world) runScript(in input, sc script) (res *result) {
 			r.inWrite[p] = false
 		case "Rollback":
 			if s.boolean("injected") {
+				if c := r.cur[p]; c != nil {
+					c.faulted = true
+				}
 				_, err = stepActor(p, "write.fnEnd", "fail")
 			} else {
 				_, err = stepActor(p, "write.fnEnd", "go")
@@ -1342,6 +1440,57 @@ func (w *world) runScript(in input, sc script) (res *result) {
 			if err == nil {
 				r.finishReprocess()
 			}
+		case "RunFaulty":
+			// one call runs alone; the nth arrival at gate failGate fails (read: database error, sign: key store error,
+			// write.fnEnd: the write transaction is rolled back); no assumption about which steps the code takes
+			var c *callRec
+			c, err = r.build(p, s.str("tpl"), s.str("id"), s.list("addl"))
+			if err != nil {
+				break
+			}
+			r.mu.Lock()
+			r.calls[c.id] = c
+			r.cur[p] = c
+			r.order = append(r.order, c)
+			r.tr[p] = &track{phase: "chkprev", left: 2 * len(c.addl)}
+			addl := append([]string{}, s.list("addl")...)
+			sort.Strings(addl)
+			r.emit(map[string]any{"ev": "create.begin", "p": p, "tpl": c.tpl, "id": c.id, "addl": addl})
+			r.mu.Unlock()
+			r.actors[p] = true
+			n := r.n
+			sched.Go(p, func(cx context.Context) {
+				tx, err := n.net.CreateTransaction(audit.Context(cx, "verif", "X04", "CreateTransaction"), c.template)
+				r.returned(c, tx, err)
+			})
+			nth, _ := s["nth"].(float64)
+			count := 0
+			for err == nil {
+				at, ok := sched.Await(p, arrive)
+				if !ok {
+					err = errors.New("the call is blocked inside the code")
+					break
+				}
+				if at == "done" {
+					break
+				}
+				dir := "go"
+				if at == s.str("gate") {
+					count++
+					if count == int(nth) {
+						c.faulted = true
+						if at == "read.begin" {
+							r.n.fault.arm(p)
+						} else {
+							dir = "fail"
+						}
+					}
+				}
+				r.inWrite[p] = at == "write.begin"
+				_, err = sched.Step(p, at, dir)
+			}
+			r.inWrite[p] = false
+			r.creatorOps++
 		case "Sync":
 			if st, e := readStored(r.n.inner); e == nil {
 				if ref, ok := r.refs[s.str("t")]; ok {
@@ -1352,6 +1501,9 @@ func (w *world) runScript(in input, sc script) (res *result) {
 			// what the peers obtain is evaluated for all transactions at the end of the script
 		default:
 			err = fmt.Errorf("unknown action %q", a)
+		}
+		if err == errBlocked {
+			break // run the rest unscheduled
 		}
 		if err != nil {
 			res.Error = fmt.Sprintf("step %d %v: %v", i, s, err)
@@ -1397,6 +1549,9 @@ func (w *world) runScript(in input, sc script) (res *result) {
 		}
 	}
 	r.stepNo = len(sc.Steps)
+	if res.Blocked != "" && r.actors["rp"] && r.rpDump != "" {
+		r.rpDump = "" // creators ran in between
+	}
 	r.check("at the end")
 	r.syncAll()
 	r.dispatch()
